@@ -49,6 +49,7 @@ def swarm(rng, tier):
         "rst_opts": rng.random() < 0.4,
         "max_patterns": rng.choice([0, 1, 3]),
         "single": True,
+        "duplicates": rng.random() < 0.3,
     }
 
 
@@ -78,6 +79,7 @@ def world_strategy(cfg, out_kinds=("sibling", "sibling", "abs", "nested", "rel_u
                    tree_kw_extra=None):
     tree_kw = dict(TREE_KW[cfg["tree"]])
     tree_kw["odd_names"] = cfg.get("odd_names", False)
+    tree_kw["duplicates"] = cfg.get("duplicates", False)
     tree_kw.update(tree_kw_extra or {})
 
     @st.composite
@@ -92,6 +94,11 @@ def world_strategy(cfg, out_kinds=("sibling", "sibling", "abs", "nested", "rel_u
         out_kind = draw(st.sampled_from(out_kinds))
         if out_kind == "nested":
             out = posixpath.join(site.proj, "zz_out")
+            if draw(st.booleans()):
+                # a sibling whose name merely starts like the output directory's
+                files[posixpath.join(site.proj, "zz_out-notes", "n9.cmake")] = "set(zqsibling 1)\n"
+                site.tree["zz_out-notes"] = None
+                site.tree["zz_out-notes/n9.cmake"] = "set(zqsibling 1)\n"
         else:
             out = posixpath.join(site.rel, "out") if site.rel else "out"
         prefix = draw(st.sampled_from([None, None] + PREFIXES))
